@@ -55,6 +55,10 @@ type referenceTracker struct {
 	// updates that are being processed
 	updates ModelUpdates
 
+	// updates generated so far by reference processing itself: a later pass
+	// over the references must see the rows as earlier passes left them
+	referenceUpdates ModelUpdates
+
 	// references are the updated references by the set of updates processed
 	references database.References
 
@@ -77,6 +81,7 @@ func (rt *referenceTracker) processReferences(updates ModelUpdates) (ModelUpdate
 	rt.added = make(map[string]string)
 	rt.deleted = make(map[string]string)
 	rt.references = make(database.References)
+	rt.referenceUpdates = ModelUpdates{}
 
 	referenceUpdates, err := rt.processReferencesLoop(updates)
 	if err != nil {
@@ -128,6 +133,7 @@ func (rt *referenceTracker) processReferencesLoop(updates ModelUpdates) (ModelUp
 		if err != nil {
 			return ModelUpdates{}, err
 		}
+		rt.referenceUpdates = referenceUpdates
 	}
 
 	return referenceUpdates, nil
@@ -543,7 +549,10 @@ func (rt *referenceTracker) getModel(table, uuid string) (model.Model, error) {
 		// model has been deleted
 		return nil, nil
 	}
-	// look for the model in the updates
+	// look for the model in the updates, those of reference processing first
+	if model := rt.referenceUpdates.GetModel(table, uuid); model != nil {
+		return model, nil
+	}
 	model := rt.updates.GetModel(table, uuid)
 	if model != nil {
 		return model, nil
@@ -562,7 +571,10 @@ func (rt *referenceTracker) getRow(table, uuid string) (*ovsdb.Row, error) {
 		// row has been deleted
 		return nil, nil
 	}
-	// look for the row in the updates
+	// look for the row in the updates, those of reference processing first
+	if row := rt.referenceUpdates.GetRow(table, uuid); row != nil {
+		return row, nil
+	}
 	row := rt.updates.GetRow(table, uuid)
 	if row != nil {
 		return row, nil
